@@ -4,6 +4,7 @@ package c06
 import (
 	"fmt"
 	"math"
+	"sort"
 	"strings"
 
 	"github.com/tdewolff/canvas"
@@ -59,6 +60,46 @@ func specialYs(sps []oracle.Subpath, pls []oracle.Polyline) []specialY {
 	return out
 }
 
+// bandQueries puts a query into every cell of the horizontal decomposition of the shape: between
+// every two consecutive special levels (vertices, curve extremes) one level is taken, and on it
+// one point left of the shape and one between every two consecutive crossings of the outline.
+// Every region a ray-casting implementation can get wrong has such a point.
+func bandQueries(sps []oracle.Subpath, pls []oracle.Polyline, lo oracle.Pt) []oracle.Pt {
+	var ys []float64
+	for _, s := range specialYs(sps, pls) {
+		ys = append(ys, s.y)
+	}
+	sort.Float64s(ys)
+	var out []oracle.Pt
+	for i := 0; i+1 < len(ys); i++ {
+		if ys[i+1]-ys[i] < 1e-3 {
+			continue
+		}
+		// two levels per band, off-centre so that they differ from the half-lattice levels
+		for _, f := range []float64{0.37, 0.71} {
+			y := ys[i] + f*(ys[i+1]-ys[i])
+			var xs []float64
+			for _, pl := range pls {
+				n := len(pl.P)
+				for k := 0; k < n; k++ {
+					a, b := pl.P[k], pl.P[(k+1)%n]
+					if (a.Y <= y) != (b.Y <= y) {
+						xs = append(xs, a.X+(y-a.Y)*(b.X-a.X)/(b.Y-a.Y))
+					}
+				}
+			}
+			sort.Float64s(xs)
+			out = append(out, oracle.Pt{X: lo.X - 0.7313, Y: y})
+			for k := 0; k+1 < len(xs); k++ {
+				if xs[k+1]-xs[k] > 1e-3 {
+					out = append(out, oracle.Pt{X: xs[k] + 0.43*(xs[k+1]-xs[k]), Y: y})
+				}
+			}
+		}
+	}
+	return out
+}
+
 // rayGeneric: the horizontal ray from q to +inf passes no vertex and no curve extreme, so every
 // crossing is a proper crossing of the interior of a segment.
 func rayGeneric(sp []specialY, q oracle.Pt) bool {
@@ -99,6 +140,7 @@ func checkShape(r *fw.R, d []float64, flat bool) {
 	sps, _ := oracle.Decode(d)
 	lo, hi, _ := oracle.BBox(pls)
 	lat, gen := queries(lo, hi)
+	gen = append(gen, bandQueries(sps, pls, lo)...)
 	p := cv.Path(d)
 	before := append([]float64(nil), p.Data()...)
 	vertex := map[oracle.Pt]bool{}
